@@ -165,7 +165,7 @@ Proof.
   - destruct m as [|m]; [lia|]. assert (Hnm : (n <= m)%nat) by lia.
     assert (Href : refines (eval p n) (eval p m)).
     { intros s0 e0 r0 s0' H0 Hr0. eapply IH; eauto. }
-    destruct e; cbn [eval] in H |- *; unfold bindv, pop, unit_res, stuck in *.
+    destruct e; cbn [eval] in H |- *; unfold bindv, pop, popn, unit_res, stuck in *.
     all: try exact H.
     all: try solve [
               repeat mono_step IH m;
